@@ -195,6 +195,10 @@ EXTRA = [
     ("UntypedLabel(Count,Sum)", "H.UntypedLabel(a=H.Count(), b=H.Sum(qx))"),
     ("Branch(Count,Bin)", "H.Branch(H.Count(), H.Bin(2, 0.0, 2.0, qx))"),
     ("Select>Count", "H.Select(qb, H.Count())"),
+    ("UntypedLabel(Count,Label(Sum,Sum))", "H.UntypedLabel(n=H.Count(), hists=H.Label(a=H.Sum(qx), b=H.Sum(qx)))"),
+    ("Branch(Count,Index(Sum,Sum))", "H.Branch(H.Count(), H.Index(H.Sum(qx), H.Sum(qx)))"),
+    ("Branch(Count,Branch(Count,Sum))", "H.Branch(H.Count(), H.Branch(H.Count(), H.Sum(qx)))"),
+    ("Branch(Label(Count),Bin)", "H.Branch(H.Label(a=H.Count()), H.Bin(2, 0.0, 2.0, qx))"),
     ("Fraction(float)", "H.Fraction(qx, H.Count())"),
     ("Select(float)>Sum", "H.Select(qx, H.Sum(qy))"),
     ("Bin>Fraction(float)", "H.Bin(2, 0.0, 2.0, qy, H.Fraction(qx, H.Count()))"),
@@ -208,7 +212,8 @@ EXTRA = [
 
 
 def harnesses(tier):
-    out = []
+    import gen_C03_extra
+    out = gen_C03_extra.harnesses(tier)
     units = [t for t in cat.unit() if _fillable(t)] + [cat.Tree(n, e) for n, e in EXTRA]
     for t in units:
         out.append(vec(t, 2, "none", special=True))
